@@ -1,6 +1,7 @@
 """C14 order book semantics: explicit-state search over a real Exchange with the
 R-BOOK reference (a dict) in lock-step."""
 from collections import deque
+import copy
 import math
 from mcx.harness import *  # noqa
 from mcx.common import Report, pmap, seed
@@ -193,6 +194,10 @@ def search(first_ops, depth):
         for op in ([forced] if forced is not None else ops):
             AbstractContract.now = now
             ex = unsnap(sx)
+            if len(hist) <= 1:
+                # near the root the successor is built on a copy.deepcopy of the restored exchange (deeper levels use the pickle
+                # snapshot alone): a copied exchange must be as independent of its source as a restored one
+                ex = copy.deepcopy(ex)
             impl_apply(ex, op)
             nbooks, nnow = ref_apply(books, now, op)
             AbstractContract.now = nnow
@@ -260,9 +265,13 @@ def replay(case, **kw):
     ex = Exchange()
     books, now = {}, CLOCKS[0]
     msgs = []
-    for op in case["history"]:
+    for i, op in enumerate(case["history"]):
         op = tuple(op)
         AbstractContract.now = now
+        # same snapshot discipline as the search: restored from a pickle at every level, deep-copied near the root
+        ex = unsnap(snap(ex))
+        if i <= 1:
+            ex = copy.deepcopy(ex)
         impl_apply(ex, op)
         books, now = ref_apply(books, now, op)
         AbstractContract.now = now
